@@ -1858,6 +1858,7 @@ EGLPNUM_TYPENAME_QSLIB_INTERFACE int EGLPNUM_TYPENAME_QSload_basis (
 	CHECKRVALG (rval, CLEANUP);
 
 	p->factorok = 0;
+	free_cache (p);								/* the stored solution belongs to the old basis */
 
 CLEANUP:
 
@@ -1894,6 +1895,7 @@ EGLPNUM_TYPENAME_QSLIB_INTERFACE int EGLPNUM_TYPENAME_QSread_and_load_basis (
 	*(p->basis) = newB;
 	EGLPNUM_TYPENAME_ILLlp_basis_init (&newB);
 	p->factorok = 0;
+	free_cache (p);								/* the stored solution belongs to the old basis */
 
 CLEANUP:
 
@@ -1962,6 +1964,7 @@ EGLPNUM_TYPENAME_QSLIB_INTERFACE int EGLPNUM_TYPENAME_QSload_basis_array (
 	}
 
 	p->factorok = 0;
+	free_cache (p);								/* the stored solution belongs to the old basis */
 
 CLEANUP:
 
